@@ -245,6 +245,13 @@ func (g *gen) stretchStrings(m *gtfsrt.FeedMessage) {
 			vd(tu.Vehicle)
 			for _, u := range tu.StopTimeUpdate {
 				odd(&u.StopId)
+				if u.StopId != nil && g.coin(0.25) {
+					// four BYTES that are fewer than four characters, on the route whose platforms are rewritten
+					u.StopId = ptr(g.pick([]string{"M1é", "éé", "M€", "😀", "M11\xff", "\xff\xfe\xfd\xfc", "M1\xc3", "日N"}))
+					if tu.Trip != nil && g.coin(0.7) {
+						tu.Trip.RouteId = ptr("M")
+					}
+				}
 				if proto.HasExtension(u, gtfsrt.E_NyctStopTimeUpdate) {
 					n := proto.GetExtension(u, gtfsrt.E_NyctStopTimeUpdate).(*gtfsrt.NyctStopTimeUpdate)
 					odd(&n.ScheduledTrack)
